@@ -133,7 +133,7 @@ def run_case(case):
         log = []
         for n, f in enumerate(filters):
             prot.discovery.watch_service(cfg.Service(*f), ClientRec(sim, log, f"L{n}"))
-        apply_timings()
+        apply_timings(prot)
         sess = {}
         intervals = {}   # (src, key) -> list of [start, end]  (end None = still live / infinite)
 
